@@ -22,6 +22,18 @@ pub enum Case {
         spec: OptSpec,
         prior: bool,
     },
+    /// A history of two calls on one thread with the same line widths and
+    /// penalties: `first` is a near-twin of `frags` (same width + whitespace
+    /// sums per fragment but a different split between the two, a dropped
+    /// penalty, one fragment changed), then `frags` itself. Both are judged.
+    /// A memo or a reused table that identifies "the same input" by less
+    /// than everything the cost function reads shows in the second call.
+    FragsAfter {
+        first: Vec<(u64, u64, u64)>,
+        frags: Vec<(u64, u64, u64)>,
+        widths: Vec<u64>,
+        pen: PenSpec,
+    },
 }
 
 pub struct P;
@@ -357,6 +369,22 @@ pub fn check(c: &Case) -> Outcome {
         match c {
             Case::Frags { frags, widths, pen } => check_frags(frags, widths, pen),
             Case::Text { par, spec, prior } => check_text(par, spec, *prior),
+            Case::FragsAfter { first, frags, widths, pen } => {
+                if let Outcome::Fail(m) = check_frags(first, widths, pen) {
+                    return Outcome::Fail(format!("call 1 of 2: {m}"));
+                }
+                match check_frags(frags, widths, pen) {
+                    Outcome::Fail(m) => Outcome::Fail(format!(
+                        "call 2 of 2 (after a call on the same thread with fragments {:?} and the same line widths and penalties): {m}",
+                        first
+                    )),
+                    Outcome::Pass(mut p) => {
+                        p.classes.push("call_history");
+                        Outcome::Pass(p)
+                    }
+                    o => o,
+                }
+            }
         }
     }
     #[cfg(not(feature = "full"))]
@@ -404,7 +432,7 @@ impl Property for P {
             3 => Just(PenSpec::DEFAULT),
             3 => gen::penalties_moderate(),
         ];
-        let frag_case = (frags, widths, pen).prop_map(|(mut frags, widths, pen)| {
+        fn fix_penalties(frags: &mut [(u64, u64, u64)]) {
             let last = frags.len().saturating_sub(1);
             for t in 0..frags.len() {
                 if t < last {
@@ -414,8 +442,41 @@ impl Property for P {
                     frags[t].2 %= 4;
                 }
             }
-            Case::Frags { frags, widths, pen }
-        });
+        }
+        let edits = prop::collection::vec((any::<u16>(), 0u8..4, 1u64..=3), 1..=3);
+        let frag_case = (frags, widths, pen, prop::bool::weighted(0.2), edits).prop_map(
+            |(mut frags, widths, pen, history, edits)| {
+                fix_penalties(&mut frags);
+                if !history || frags.is_empty() {
+                    return Case::Frags { frags, widths, pen };
+                }
+                let mut first = frags.clone();
+                for (at, kind, amt) in edits {
+                    let i = gen::pick(at, first.len());
+                    let f = &mut first[i];
+                    match kind {
+                        // move columns from the width to the whitespace
+                        0 => {
+                            let d = amt.min(f.0);
+                            f.0 -= d;
+                            f.1 += d;
+                        }
+                        // ... and back
+                        1 => {
+                            let d = amt.min(f.1);
+                            f.1 -= d;
+                            f.0 += d;
+                        }
+                        // drop / change the penalty width
+                        2 => f.2 = if f.2 == 0 { 1 } else { 0 },
+                        // change the width outright
+                        _ => f.0 += amt,
+                    }
+                }
+                fix_penalties(&mut first);
+                Case::FragsAfter { first, frags, widths, pen }
+            },
+        );
         let mut mix = Mix::CLEAN.no_endings();
         mix.punct = 12;
         mix.esc_tricky = 2;
